@@ -10,7 +10,9 @@ EXPLANATION = ("Real Memoer.rend (segmentation, headers, signing) on the sender 
                "signature scheme and deterministic ids. Driver: the four zero-gram codes (plain/auth x sure) x base64/binary headers. "
                "Solver-chosen and enumerated: memo = prefix of 'abcdéf' (1..6 chars, a 2-byte UTF-8 char that straddles gram "
                "boundaries), gram size = overhead + 1..3 body bytes (1-4 grams), the delivery permutation of the grams, one duplicate "
-               "at the end, one withheld gram, interleaving with the grams of a second memo. Oracle: each complete memo appears in the "
+               "at the end, one withheld gram, interleaving with the grams of a second memo; each delivery is serviced three ways inside the leaf: all datagrams "
+               "queued before one serviceAllRx, one serviceAllRx after every datagram, one serviceAllRxOnce after every datagram (so "
+               "fuse attempts also run on incomplete memos). Oracle: each complete memo appears in the "
                "inbox exactly once with the same text, source and signer id; a memo with a withheld gram never appears.")
 FUNCTIONS = [('hio.core.memo.memoing', 'Memoer.rend'), ('hio.core.memo.memoing', 'Memoer.pick'), ('hio.core.memo.memoing', 'Memoer.wiff'),
              ('hio.core.memo.memoing', 'Memoer._serviceOneReceived'), ('hio.core.memo.memoing', 'Memoer.fuse'), ('hio.core.memo.memoing', 'Memoer._serviceOnceRxGrams'),
@@ -101,7 +103,9 @@ def stage_send(part, mlen, bodysz, second):
 def stage_deliver(part, st, order, dup, drop):
     grams, g2, signed, memo, vid = st['grams'], st['g2'], st['signed'], st['memo'], st['vid']
     n = len(grams)
+    st['_order'], st['_dup'] = order, dup
     seq = [grams[i] for i in order if i != drop]
+    st['_dup_at'] = -1
     if dup >= 0 and dup != drop:
         seq.append(grams[dup])
     if g2:
@@ -112,14 +116,41 @@ def stage_deliver(part, st, order, dup, drop):
                 inter.append(g2[k])
                 k += 1
         seq = inter + g2[k:]
+    if dup >= 0 and dup != drop:
+        st['_dup_at'] = max(i for i, g in enumerate(seq) if g is grams[dup])     # position of the late duplicate in the delivery
+    # servicing granularity is folded into the leaf: all datagrams queued before one service pass (batch), and one service
+    # pass after every single datagram (incremental: fuse attempts run on incomplete memos), the greedy and the once flavour
+    for mode in ('batch', 'incremental', 'incremental-once'):
+        f = deliver_mode(part, st, seq, mode, drop)
+        if f is not None:
+            return f
+    return None
+
+
+def deliver_mode(part, st, seq, mode, drop):
+    grams, g2, signed, memo, vid = st['grams'], st['g2'], st['signed'], st['memo'], st['vid']
+    n = len(grams)
+    order, dup = st.get('_order'), st.get('_dup')
     rx = memoing.Memoer(echoic=True, authic=signed, keep=st['keep'])
     rx.opened = True
-    for g in seq:
-        rx.echos.append((g, 'srcaddr'))
+    done_before_dup = 0
     try:
-        rx.serviceAllRx()
+        if mode == 'batch':
+            for g in seq:
+                rx.echos.append((g, 'srcaddr'))
+            rx.serviceAllRx()
+        else:
+            for j, g in enumerate(seq):
+                if j == st['_dup_at']:
+                    done_before_dup = sum(1 for t in list(rx.inbox) + list(rx.rxms) if t[0] == memo)
+                rx.echos.append((g, 'srcaddr'))
+                if mode == 'incremental':
+                    rx.serviceAllRx()
+                else:
+                    rx.serviceAllRxOnce()
+            rx.serviceAllRx()
     except Exception as ex:      # noqa
-        return Failure('rx-raises:%s' % type(ex).__name__, 'serviceAllRx raised %r on delivery %r' % (ex, seq))
+        return Failure('rx-raises:%s' % type(ex).__name__, 'service (%s) raised %r on delivery %r' % (mode, ex, seq))
     got = sorted(((m, s, v) for (m, s, v) in rx.inbox), key=lambda t: t[0])
     exp = []
     if drop < 0:
@@ -142,11 +173,15 @@ def stage_deliver(part, st, order, dup, drop):
                 kind += ':nonzeroth-gram-arrives-before-zeroth'
         elif len(got) > len(exp):
             kind = 'delivered-although-gram-withheld' if drop >= 0 else 'delivered-more-than-once'
+            if drop < 0 and done_before_dup == 1 and [t for t in got if t[0] != memo] == [t for t in exp if t[0] != memo] \
+                    and sum(1 for t in got if t[0] == memo) == 2:
+                # the memo had been fused and delivered (its reassembly state deleted) before the duplicate datagram arrived
+                kind += ':duplicate-gram-arrives-after-the-memo-was-delivered'
         else:
             kind = 'wrong-text'
         return Failure('%s:%s' % (kind, sg),
-                       'memo %r in %d grams (size %d) delivered in order %r (dup %d, withheld %d, interleaved with %d grams of a 2nd memo): inbox %r expected %r'
-                       % (memo, n, st['size'], order, dup, drop, len(g2), got, exp))
+                       'memo %r in %d grams (size %d) delivered in order %r (dup %d, withheld %d, interleaved with %d grams of a 2nd memo; servicing %s): inbox %r expected %r'
+                       % (memo, n, st['size'], order, dup, drop, len(g2), mode, got, exp))
     return None
 
 
